@@ -7,7 +7,13 @@ for the language chains (over the C06 pass models, along the REGENERATED Cog/Gen
 full statements kept, partials under decidable hypotheses, counterexamples evaluated by the
 kernel (lean/Cog/Props/C05.lean).
 Tie: (1) `Closed` in Lean vs an independent Go implementation on the same generated IR;
-(2) the three real front-ends on repo testdata + generated source schemas → oracle Closed;
+(2) the three real front-ends on repo testdata + generated source schemas → oracle Closed; and
+    (c05-parseopts) the front-ends driven through codegen.Input the way the pipeline drives them
+    (cue / kindsys_core / kindsys_composable / jsonschema / openapi loaders), a pinned matrix of INPUT
+    SHAPES (definitions only, fields only, both, empty document, scalar root, root named like the
+    package, modules with (nested) imports…) × LOADER OPTIONS (forced_envelope, NameFunc, cue_imports,
+    InlineExternalReference, entrypoint vs value, package given / guessed, allowed_objects, metadata,
+    no_validate) plus generated schemas under random option sets → oracle Closed, entry point included;
 (3) the real CompilerPasses() of the 7 languages + FromAST on Closed IR → oracle Closed;
 (4) name-op sequences through the real passes vs the Lean models + oracle;
 (5) the real FilterSchemas vs the Lean model and vs `reach` on both sides;
@@ -56,7 +62,7 @@ def theorem_names():
     return [ns + "." + m for m in re.findall(r"^theorem\s+(C05_\w+)", src, re.M)]
 
 
-C05_FILES = ["c05_gen.go", "c05_oracle.go", "c05_shrink.go", "c05_src.go", "c05_streams.go", "c05_virdec.go"]
+C05_FILES = ["c05_gen.go", "c05_oracle.go", "c05_popt.go", "c05_shrink.go", "c05_src.go", "c05_streams.go", "c05_virdec.go"]
 
 
 def build_c05_harness():
@@ -85,11 +91,15 @@ def run_lines(hb, stream, lines, **kw):
 
 
 def load_known(c):
-    """known_findings.json entries of C05 plus the proposed ones that are not merged yet"""
+    """known_findings.json entries of C05 plus the proposed ones that are not merged yet
+    (.work/proposed_findings_C05.json and checks/c05.*.proposed_findings.json)"""
+    import glob
     ids = {f["id"]: f for f in c.known}
-    if os.path.exists(PROPOSED_PATH):
+    for path in [PROPOSED_PATH] + sorted(glob.glob(os.path.join(VERIF, "checks", "c05.*.proposed_findings.json"))):
+        if not os.path.exists(path):
+            continue
         try:
-            for f in json.load(open(PROPOSED_PATH)).get("findings", []):
+            for f in json.load(open(path)).get("findings", []):
                 if f.get("property") != PID:
                     continue
                 if f["id"] not in ids:
@@ -101,7 +111,7 @@ def load_known(c):
                     if f.get("match") and f["match"] != ids[f["id"]].get("match") and f.get("supersedes_match"):
                         ids[f["id"]]["match"] = f["match"]                 # a NARROWED regex awaiting the merge
         except Exception as e:  # a broken proposal file must not hide anything
-            c.oblige("proposed findings file is readable", False, str(e))
+            c.oblige("proposed findings file %s is readable" % os.path.basename(path), False, str(e))
 
 
 class Streams:
@@ -311,6 +321,22 @@ def main():
               nontrivial=lambda r: r[1].startswith("false"))
     S.process("c05-parsers", harness(hb, "c05-parsers", n=n(400, 4000), seed=seed, tier=tier, work=WORK),
               nontrivial=lambda r: r[1].startswith(("true", "false")))
+    # "after parsing ANY schema": input shapes x loader options through codegen.Input (harness/c05_popt.go)
+    prow = harness(hb, "c05-parseopts", n=n(300, 4000), seed=seed, work=WORK)
+    S.process("c05-parseopts", prow, nontrivial=lambda r: r[1].startswith(("true", "false")))
+    judged = collections.Counter()
+    for r in prow:
+        if r[1].startswith(("true", "false")):
+            cs = case_of(r)
+            for kind in re.findall(r"\((cue|kindsys_core|kindsys_composable|jsonschema|openapi)[ )]", cs[cs.rfind(") (("):]):
+                judged[kind] += 1
+            for opt in set(re.findall(r'"(envelope|namefunc|inline|import|entry|value|allowed|meta|novalidate|pkg)=', cs[cs.rfind(") (("):])):
+                judged["opt:" + opt] += 1
+    c.cov["parseopts_judged"] = dict(judged)
+    want = ["cue", "kindsys_core", "kindsys_composable", "jsonschema", "openapi"] + [
+        "opt:" + o for o in ("envelope", "namefunc", "inline", "import", "entry", "value", "allowed", "meta", "novalidate", "pkg")]
+    c.oblige("c05-parseopts: every input kind and every loader option was loaded and judged at least 3 times",
+             all(judged[k] >= 3 for k in want), "judged rows per kind / option: %s" % dict(judged))
     hlab, laberr = build_c05_lab_harness()
     c.cov["lab_generator_available"] = hlab is not None
     if hlab is not None:
